@@ -149,12 +149,24 @@ def check(case):
         fail("resolve-raises", f"expand_packages on {text!r} raised {only_packages!r}")
     want = sut.call(api.resolve, ref.subst_packages(text, table, time_too=False), False, False)
     compare(only_packages.value, want.value, "expand_packages")
+    # a second expansion of the same parsed tree is again exactly one level of substitution
+    second = sut.call(expand_packages, plain.value)
+    if not second.ok:
+        fail("resolve-raises", f"a second expand_packages on the parsed tree of {text!r} raised {second!r}")
+    compare(second.value, want.value, "expand_packages (second call on the same parsed tree)")
+    compare(only_packages.value, want.value, "expand_packages (first result, after the second call)")
     plain = sut.call(api.resolve, text, False, False)
     only_time = sut.call(expand_time_conditions, plain.value)
     if not only_time.ok:
         fail("resolve-raises", f"expand_time_conditions on {text!r} raised {only_time!r}")
     want = sut.call(api.resolve, ref.subst_time(text), False, False)
     compare(only_time.value, want.value, "expand_time_conditions")
+    # the parsed tree can still be given to expand_packages afterwards (time conditions first, then packages)
+    both = sut.call(expand_packages, only_time.value)
+    if not both.ok:
+        fail("resolve-raises", f"expand_packages after expand_time_conditions on {text!r} raised {both!r}")
+    want = sut.call(api.resolve, ref.subst_packages(ref.subst_time(text), table, time_too=False), False, False)
+    compare(both.value, want.value, "expand_time_conditions, then expand_packages")
     return info
 
 
